@@ -1,19 +1,801 @@
-//! Engine `wal` — not built yet (stub).
+//! Engine `wal` (C17): the real `WriteAheadLog` on a file in a scratch directory against the Lean model.
+//!
+//! Case kinds
+//!   seq | op ; op ; …        one log, created fresh, ops applied in order; one result token per op
+//!       push T K U R         append (LSN assigned as `Pager::push_to_log` does) a record of transaction T, kind K
+//!                            (RecordType discriminant) with U undo and R redo bytes; the remaining header fields and
+//!                            the payload bytes are the fixed functions of (T, K) below      → `ok <lsn>` | `err <class>`
+//!       force                `flush()` (writes + fsync)                                      → `ok` | `err <class>`
+//!       truncate             `truncate()`                                                    → `ok` | `err <class>`
+//!       reopen               drop (the log's Drop forces) and open again                     → `ok` | `err <class>`
+//!       crash                the file as it is on disk now survives, the log object does not; open again
+//!       read K               everything the reader returns with read-ahead K                 → `[rec,rec,…]` | `err <class>`
+//!       image                the file itself, block by block (number, used bytes, first/last LSN, digest of the used
+//!                            data area), read by the harness with nothing but the layout                 → `{blk,blk,…}`
+//!   rec LSN T K PREV OID ROW UNDOHEX REDOHEX     byte image of one record + decode of that image
 use super::{Case, Engine, Tier};
 use crate::rng::Rng;
+use crate::util::{hex, unhex};
+use axmosdb::verif::wal as fw;
+use std::path::PathBuf;
+use std::sync::atomic::{AtomicU64, Ordering};
 
 pub struct WalEngine;
 
-impl Engine for WalEngine {
-    fn gen_cases(&self, _rng: &mut Rng, _tier: Tier) -> Vec<Case> {
-        Vec::new()
-    }
-    fn exec(&mut self, _line: &str) -> String {
-        "unimplemented".into()
+static COUNTER: AtomicU64 = AtomicU64::new(0);
+
+fn scratch_dir() -> PathBuf {
+    let n = COUNTER.fetch_add(1, Ordering::Relaxed);
+    let base = std::env::var("AXH_WAL_TMP").map(PathBuf::from).unwrap_or_else(|_| std::env::temp_dir());
+    base.join(format!("axv-wal-{}-{}", std::process::id(), n))
+}
+
+struct DirGuard(PathBuf);
+impl Drop for DirGuard {
+    fn drop(&mut self) {
+        let _ = std::fs::remove_dir_all(&self.0);
     }
 }
 
-/// Content of `lean/AxVerif/Generated/<Engine>.lean`, if this engine extracts constants from the code.
+const KINDS: [u8; 10] = [0, 1, 2, 3, 6, 7, 8, 9, 10, 11];
+
+/// header fields and payload bytes of the record `push T K U R` stands for
+pub fn mk_rec(tid: u64, kind: u8, ulen: usize, rlen: usize) -> fw::Rec {
+    let dml = kind >= 6;
+    fw::Rec {
+        lsn: 0,
+        tid,
+        prev_lsn: if tid % 2 == 1 { Some(tid / 2) } else { None },
+        object_id: if dml { Some(tid % 7 + 1) } else { None },
+        row_id: if dml { Some(tid * 3) } else { None },
+        kind,
+        undo: (0..ulen).map(|i| ((tid % 256) as usize * 7 + i * 3 + 1) as u8).collect(),
+        redo: (0..rlen).map(|i| ((tid % 256) as usize * 11 + i * 5 + 2) as u8).collect(),
+        total_size: 0,
+    }
+}
+
+fn fnv(parts: &[&[u8]]) -> u32 {
+    let mut h: u32 = 2166136261;
+    for p in parts {
+        for b in *p {
+            h = (h ^ (*b as u32)).wrapping_mul(16777619);
+        }
+    }
+    h
+}
+
+fn opt(o: Option<u64>) -> String {
+    match o {
+        Some(v) => v.to_string(),
+        None => "-".into(),
+    }
+}
+
+fn show_rec(r: &fw::Rec) -> String {
+    format!(
+        "{}:{}:{}:{}:{}:{}:{}:{}:{}:{:08x}",
+        r.lsn,
+        r.tid,
+        r.kind,
+        opt(r.prev_lsn),
+        opt(r.object_id),
+        opt(r.row_id),
+        r.undo.len(),
+        r.redo.len(),
+        r.total_size,
+        fnv(&[&r.undo, &r.redo])
+    )
+}
+
+fn err_class(e: &std::io::Error) -> &'static str {
+    use std::io::ErrorKind::*;
+    match e.kind() {
+        InvalidInput => "toolarge",
+        StorageFull => "full",
+        UnexpectedEof => "eof",
+        NotFound => "notfound",
+        _ => "io",
+    }
+}
+
+fn parse_opt(s: &str) -> Option<Option<u64>> {
+    if s == "-" { Some(None) } else { s.parse().ok().map(Some) }
+}
+
+fn stats_diag(w: &fw::Wal) -> String {
+    let s = w.stats();
+    format!("tb={} te={} pend={} last={}", s.total_blocks, s.total_entries, s.pending_blocks, opt(w.last_lsn()))
+}
+
+fn run_seq(ops: &[&str]) -> String {
+    let dir = scratch_dir();
+    if std::fs::create_dir_all(&dir).is_err() {
+        return "err scratch".into();
+    }
+    let _guard = DirGuard(dir.clone());
+    let path = dir.join("wal.log");
+    let snap = dir.join("wal.snap");
+    let mut wal = match fw::Wal::create(&path) {
+        Ok(w) => Some(w),
+        Err(_) => return "err create".into(),
+    };
+    let mut outs: Vec<String> = Vec::new();
+    let mut diag: Vec<String> = Vec::new();
+    for op in ops {
+        let ws: Vec<&str> = op.split_whitespace().collect();
+        // validate the op first: a malformed op makes the whole case `bad-op`
+        let parsed: Option<()> = match ws.as_slice() {
+            ["push", t, k, u, r] => (|| {
+                t.parse::<u64>().ok().filter(|t| *t < (1 << 32))?;
+                let k = k.parse::<u8>().ok()?;
+                fw::record_type_of(k)?;
+                let u = u.parse::<usize>().ok()?;
+                let r = r.parse::<usize>().ok()?;
+                if u > 65535 || r > 65535 { None } else { Some(()) }
+            })(),
+            ["force"] | ["truncate"] | ["reopen"] | ["crash"] | ["image"] => Some(()),
+            ["read", k] => k.parse::<usize>().ok().filter(|k| *k <= 64).map(|_| ()),
+            _ => None,
+        };
+        if parsed.is_none() {
+            return "bad-op".into();
+        }
+        let Some(w) = wal.as_mut() else {
+            outs.push("dead".into());
+            diag.push("dead".into());
+            continue;
+        };
+        match ws.as_slice() {
+            ["push", t, k, u, r] => {
+                let rec = mk_rec(t.parse().unwrap(), k.parse().unwrap(), u.parse().unwrap(), r.parse().unwrap());
+                match w.append(&rec).unwrap() {
+                    Ok(lsn) => outs.push(format!("ok {}", lsn)),
+                    Err(e) => outs.push(format!("err {}", err_class(&e))),
+                }
+            }
+            ["force"] => match w.flush() {
+                Ok(()) => outs.push("ok".into()),
+                Err(e) => outs.push(format!("err {}", err_class(&e))),
+            },
+            ["truncate"] => match w.truncate() {
+                Ok(()) => outs.push("ok".into()),
+                Err(e) => outs.push(format!("err {}", err_class(&e))),
+            },
+            ["reopen"] => {
+                drop(wal.take());
+                match fw::Wal::open(&path) {
+                    Ok(w2) => {
+                        wal = Some(w2);
+                        outs.push("ok".into());
+                    }
+                    Err(e) => outs.push(format!("err {}", err_class(&e))),
+                }
+            }
+            ["crash"] => {
+                // what is on disk now survives; the forcing Drop of the log object must not reach the file
+                let copied = std::fs::copy(&path, &snap).is_ok();
+                drop(wal.take());
+                if !copied || std::fs::rename(&snap, &path).is_err() {
+                    return "err scratch".into();
+                }
+                match fw::Wal::open(&path) {
+                    Ok(w2) => {
+                        wal = Some(w2);
+                        outs.push("ok".into());
+                    }
+                    Err(e) => outs.push(format!("err {}", err_class(&e))),
+                }
+            }
+            ["image"] => outs.push(file_image(&path, w.stats().block_size)),
+            ["read", k] => match w.read_all(k.parse().unwrap()) {
+                Ok(rs) => {
+                    let items: Vec<String> = rs.iter().map(show_rec).collect();
+                    outs.push(format!("[{}]", items.join(",")));
+                }
+                Err(e) => outs.push(format!("err {}", err_class(&e))),
+            },
+            _ => unreachable!(),
+        }
+        if let Some(w) = wal.as_ref() {
+            diag.push(stats_diag(w));
+        } else {
+            diag.push("dead".into());
+        }
+    }
+    drop(wal);
+    format!("{} ## {}", outs.join(" ; "), diag.join(" ; "))
+}
+
+fn u64_at(b: &[u8], off: usize) -> u64 {
+    u64::from_le_bytes(b[off..off + 8].try_into().unwrap())
+}
+
+fn opt_at(b: &[u8], off: usize) -> String {
+    if u64_at(b, off) == 0 { "-".into() } else { u64_at(b, off + 8).to_string() }
+}
+
+/// An independent look at the file, knowing only the layout: per block its number, used bytes, first/last LSN
+/// (`BlockHeader`: u64, Option<u64>, Option<u64>, u64) and a digest of the used part of the data area with the value
+/// bytes of `None` options zeroed; block zero also shows `total_blocks` (`WalHeader` behind the 64-byte block header).
+fn file_image(path: &std::path::Path, bs: usize) -> String {
+    let Ok(data) = std::fs::read(path) else { return "err io".into() };
+    if data.len() < bs {
+        return "{}".into();
+    }
+    let c = fw::constants(bs);
+    let mut items = Vec::new();
+    for (i, blk) in data.chunks(bs).enumerate() {
+        if blk.len() < bs {
+            items.push("partial".to_string());
+            break;
+        }
+        let hdr = if i == 0 { c.zero_header_size } else { c.block_header_size };
+        let used = u64_at(blk, 40) as usize;
+        if used > bs - hdr {
+            items.push(format!("{}:{}:bad", u64_at(blk, 0), used));
+            continue;
+        }
+        let mut area = blk[hdr..hdr + used].to_vec();
+        let mut off = 0usize;
+        let mut bad = false;
+        while off < used {
+            if off + c.record_header_size > used {
+                bad = true;
+                break;
+            }
+            let total = u32::from_le_bytes(area[off + 64..off + 68].try_into().unwrap()) as usize;
+            if total < c.record_header_size || off + total > used {
+                bad = true;
+                break;
+            }
+            for slot in [16usize, 32, 48] {
+                if u64_at(&area, off + slot) == 0 {
+                    for b in &mut area[off + slot + 8..off + slot + 16] {
+                        *b = 0;
+                    }
+                }
+            }
+            off += total;
+        }
+        let mut item = format!(
+            "{}:{}:{}:{}:{}",
+            u64_at(blk, 0),
+            used,
+            opt_at(blk, 8),
+            opt_at(blk, 24),
+            if bad { "bad".to_string() } else { format!("{:08x}", fnv(&[&area])) }
+        );
+        if i == 0 {
+            // WalHeader starts at 64: two Option<u64> (32 bytes), last_checkpoint_offset (8), total_blocks
+            item.push_str(&format!(":tb={}", u64_at(blk, 64 + 40)));
+        }
+        items.push(item);
+    }
+    format!("{{{}}}", items.join(","))
+}
+
+/// value bytes of a `None` option are not initialised by the code: zero them before comparing
+fn mask_record_image(img: &mut [u8], r: &fw::Rec) {
+    let opts = [(16usize, r.prev_lsn), (32, r.object_id), (48, r.row_id)];
+    for (off, o) in opts {
+        if o.is_none() && img.len() >= off + 16 {
+            for b in &mut img[off + 8..off + 16] {
+                *b = 0;
+            }
+        }
+    }
+}
+
+impl Engine for WalEngine {
+    fn timeout_ms(&self) -> u64 {
+        60_000
+    }
+
+    fn exec(&mut self, line: &str) -> String {
+        let line = line.trim();
+        if let Some(rest) = line.strip_prefix("seq |") {
+            let ops: Vec<&str> = rest.split(';').map(|s| s.trim()).filter(|s| !s.is_empty()).collect();
+            return run_seq(&ops);
+        }
+        if line == "seq" {
+            return run_seq(&[]);
+        }
+        let ws: Vec<&str> = line.split_whitespace().collect();
+        match ws.as_slice() {
+            ["rec", lsn, tid, kind, prev, oid, row, undo, redo] => {
+                let r = (|| {
+                    Some(fw::Rec {
+                        lsn: lsn.parse().ok()?,
+                        tid: tid.parse().ok()?,
+                        kind: kind.parse().ok()?,
+                        prev_lsn: parse_opt(prev)?,
+                        object_id: parse_opt(oid)?,
+                        row_id: parse_opt(row)?,
+                        undo: unhex(undo)?,
+                        redo: unhex(redo)?,
+                        total_size: 0,
+                    })
+                })();
+                let Some(r) = r else { return "bad-op".into() };
+                if r.undo.len() > 65535 || r.redo.len() > 65535 {
+                    return "bad-op".into();
+                }
+                let Some(mut img) = fw::encode_record(&r) else { return "bad-op".into() };
+                mask_record_image(&mut img, &r);
+                let mut with_rest = img.clone();
+                with_rest.extend_from_slice(&[0xEE; 24]);
+                let rt = match fw::decode_record(&with_rest) {
+                    Some(d)
+                        if d.lsn == r.lsn
+                            && d.tid == r.tid
+                            && d.kind == r.kind
+                            && d.prev_lsn == r.prev_lsn
+                            && d.object_id == r.object_id
+                            && d.row_id == r.row_id
+                            && d.undo == r.undo
+                            && d.redo == r.redo
+                            && d.total_size == img.len() =>
+                    {
+                        "rt=ok"
+                    }
+                    _ => "rt=DIFF",
+                };
+                format!("{} {}", hex(&img), rt)
+            }
+            _ => "bad-op".into(),
+        }
+    }
+
+    fn gen_cases(&self, rng: &mut Rng, tier: Tier) -> Vec<Case> {
+        generator::gen_cases(rng, tier)
+    }
+}
+
+mod generator {
+    use super::*;
+
+    /// Space accounting of the log, used only to steer sizes towards block boundaries (never to judge).
+    pub struct Sim {
+        z: usize,
+        b: usize,
+        m: usize,
+        zero_used: usize,
+        spilled: bool,
+        cur: Option<usize>,
+        pub crossings: usize,
+        pub forces: usize,
+        pub forces_after_cross: usize,
+        pub tags: std::collections::BTreeSet<&'static str>,
+    }
+
+    impl Sim {
+        pub fn new(c: &fw::Constants) -> Sim {
+            Sim {
+                z: c.fresh_zero_available,
+                b: c.fresh_block_available,
+                m: c.max_record_size,
+                zero_used: 0,
+                spilled: false,
+                cur: None,
+                crossings: 0,
+                forces: 0,
+                forces_after_cross: 0,
+                tags: Default::default(),
+            }
+        }
+        /// free space of the block the next record would go to
+        pub fn space(&self) -> usize {
+            match self.cur {
+                Some(u) => self.b - u,
+                None if !self.spilled => self.z - self.zero_used,
+                None => self.b,
+            }
+        }
+        pub fn push(&mut self, size: usize) {
+            if size > self.m {
+                self.tags.insert("toolarge");
+                return;
+            }
+            if self.cur.is_none() {
+                if !self.spilled && self.z - self.zero_used >= size {
+                    if self.z - self.zero_used == size {
+                        self.tags.insert("fills-zero-exactly");
+                    }
+                    self.zero_used += size;
+                    return;
+                }
+                self.spilled = true;
+                self.crossings += 1;
+                self.tags.insert("spill");
+                self.cur = Some(0);
+            }
+            let u = self.cur.unwrap();
+            let mut u = u;
+            if self.b - u < size {
+                self.crossings += 1;
+                self.tags.insert("rotate");
+                u = 0;
+            }
+            if self.b < size {
+                self.tags.insert("full");
+                self.cur = Some(0);
+            } else {
+                if self.b - u == size {
+                    self.tags.insert("fills-block-exactly");
+                }
+                self.cur = Some(u + size);
+            }
+        }
+        pub fn force(&mut self) {
+            self.forces += 1;
+            if self.crossings > 0 {
+                self.forces_after_cross += 1;
+            }
+        }
+        pub fn reopen(&mut self) {
+            if self.spilled {
+                self.tags.insert("reopen-after-spill");
+            }
+            self.force();
+            self.cur = None;
+        }
+        pub fn crash(&mut self) {
+            self.tags.insert("crash");
+            self.cur = None;
+        }
+        pub fn truncate(&mut self) {
+            self.tags.insert("truncate");
+            self.zero_used = 0;
+            self.spilled = false;
+            self.cur = None;
+        }
+        /// non-trivial: at least one block boundary crossed and at least two forces, one of them after the crossing
+        pub fn nontrivial(&self) -> bool {
+            self.crossings >= 1 && self.forces >= 2 && self.forces_after_cross >= 1
+        }
+    }
+
+    const HDR: usize = 80;
+
+    fn total_of(payload: usize) -> usize {
+        HDR + payload.next_multiple_of(8)
+    }
+
+    /// `push` op with the given payload length, split at random between undo and redo
+    fn push_op(rng: &mut Rng, sim: &mut Sim, tid: &mut u64, payload: usize) -> String {
+        let kind = if payload == 0 { *rng.pick(&KINDS) } else { *rng.pick(&[6u8, 7, 8, 9, 10, 11]) };
+        let u = match rng.below(4) {
+            0 => 0,
+            1 => payload,
+            _ => rng.below(payload as u64 + 1) as usize,
+        };
+        let r = payload - u;
+        sim.push(total_of(payload));
+        *tid += 1;
+        format!("push {} {} {} {}", *tid, kind, u, r)
+    }
+
+    /// payload length whose record leaves `d` bytes (d multiple of 8, may be negative) in the target block, with the
+    /// payload's residue mod 8 chosen by `j`
+    fn payload_for_gap(sim: &Sim, d: i64, j: usize) -> Option<usize> {
+        let total = sim.space() as i64 - d;
+        if total < HDR as i64 {
+            return None;
+        }
+        let padded = total as usize - HDR;
+        if padded == 0 {
+            return Some(0);
+        }
+        Some(padded - (j % 8).min(padded - 1).min(7))
+    }
+
+    fn random_payload(rng: &mut Rng, sim: &mut Sim, c: &fw::Constants) -> usize {
+        let max_payload = c.max_record_size - HDR;
+        match rng.below(100) {
+            0..=19 => 0,
+            20..=44 => 1 + rng.below(64) as usize,
+            45..=59 => 1000 + rng.below(7000) as usize,
+            60..=79 => {
+                let d = rng.range(-2, 11) * 8;
+                sim.tags.insert("boundary-targeted");
+                payload_for_gap(sim, d, rng.below(8) as usize).unwrap_or(0)
+            }
+            80..=91 => 20000 + rng.below((max_payload - 20000) as u64 + 1) as usize,
+            _ => {
+                sim.tags.insert("limit-size");
+                // around max_record_size and around what a fresh block can really take
+                let base = if rng.chance(1, 2) { c.max_record_size } else { c.fresh_block_available };
+                let total = (base as i64 + rng.range(-2, 2) * 8) as usize;
+                total - HDR - rng.below(8) as usize
+            }
+        }
+    }
+
+    fn tags_of(sim: &Sim, base: &[&str]) -> Vec<String> {
+        let mut t: Vec<String> = base.iter().map(|s| s.to_string()).collect();
+        t.extend(sim.tags.iter().map(|s| s.to_string()));
+        if sim.nontrivial() {
+            t.push("nt".into());
+        }
+        t.push(format!("crossings-{}", sim.crossings.min(4)));
+        t
+    }
+
+    /// all sequences of length ≤ `len` over the alphabet
+    ///   a push small (empty payload)   b push exactly filling the target block   c push large (30 000 bytes)
+    ///   f force   r reopen   t truncate   x crash
+    /// each once with a single final read and once with a read after every op
+    fn exhaustive(cases: &mut Vec<Case>, c: &fw::Constants, len: usize) {
+        let alphabet = ['a', 'b', 'c', 'f', 'r', 't', 'x'];
+        let mut seqs: Vec<Vec<char>> = vec![vec![]];
+        let mut frontier: Vec<Vec<char>> = vec![vec![]];
+        for _ in 0..len {
+            let mut next = Vec::new();
+            for s in &frontier {
+                for a in alphabet {
+                    let mut t = s.clone();
+                    t.push(a);
+                    next.push(t);
+                }
+            }
+            seqs.extend(next.iter().cloned());
+            frontier = next;
+        }
+        let mut n = 0usize;
+        for s in seqs {
+            for every in [false, true] {
+                let mut sim = Sim::new(c);
+                let mut ops: Vec<String> = Vec::new();
+                let mut tid = 0u64;
+                for (i, a) in s.iter().enumerate() {
+                    n += 1;
+                    match a {
+                        'a' => {
+                            tid += 1;
+                            sim.push(HDR);
+                            ops.push(format!("push {} {} 0 0", tid, KINDS[(n + i) % 4]));
+                        }
+                        'b' => {
+                            tid += 1;
+                            let p = payload_for_gap(&sim, 0, n + i).unwrap_or(0);
+                            sim.push(total_of(p));
+                            let u = (p / 3).min(65535);
+                            ops.push(format!("push {} 6 {} {}", tid, u, p - u));
+                        }
+                        'c' => {
+                            tid += 1;
+                            sim.push(total_of(30000));
+                            ops.push(format!("push {} 8 0 30000", tid));
+                        }
+                        'f' => {
+                            sim.force();
+                            ops.push("force".into());
+                        }
+                        'r' => {
+                            sim.reopen();
+                            ops.push("reopen".into());
+                        }
+                        't' => {
+                            sim.truncate();
+                            ops.push("truncate".into());
+                        }
+                        _ => {
+                            sim.crash();
+                            ops.push("crash".into());
+                        }
+                    }
+                    if every {
+                        ops.push(format!("read {}", 1 + (n + i) % 3));
+                    }
+                }
+                if !every {
+                    ops.push(format!("read {}", 1 + n % 3));
+                } else {
+                    ops.push("image".into());
+                }
+                let line = if ops.is_empty() { "seq".to_string() } else { format!("seq | {}", ops.join(" ; ")) };
+                cases.push(Case { line, tags: tags_of(&sim, &["exhaustive"]) });
+            }
+        }
+    }
+
+    fn random_seq(rng: &mut Rng, c: &fw::Constants, max_ops: usize) -> Case {
+        let mut sim = Sim::new(c);
+        let mut ops: Vec<String> = Vec::new();
+        let mut tid = rng.below(1000);
+        let n_ops = 5 + rng.below(max_ops as u64 - 4) as usize;
+        // style: 0 = free mix, 1 = production pattern (every commit forces), 2 = fill quickly then mix
+        let style = rng.below(3);
+        let crashy = rng.chance(1, 4);
+        let mut base = vec!["random", ["style-mix", "style-commit", "style-fill"][style as usize]];
+        if style == 2 {
+            for _ in 0..rng.below(3) {
+                let p = 20000 + rng.below(20000) as usize;
+                ops.push(push_op(rng, &mut sim, &mut tid, p));
+            }
+        }
+        while ops.len() < n_ops {
+            if style == 1 {
+                // begin, a few changes, commit, force, end  (Session / log_end)
+                ops.push(push_op(rng, &mut sim, &mut tid, 0));
+                for _ in 0..1 + rng.below(3) {
+                    let p = random_payload(rng, &mut sim, c);
+                    ops.push(push_op(rng, &mut sim, &mut tid, p));
+                }
+                ops.push(push_op(rng, &mut sim, &mut tid, 0));
+                sim.force();
+                ops.push("force".into());
+                ops.push(push_op(rng, &mut sim, &mut tid, 0));
+                if rng.chance(1, 3) {
+                    ops.push(format!("read {}", 1 + rng.below(6)));
+                }
+                if rng.chance(1, 8) {
+                    sim.reopen();
+                    ops.push("reopen".into());
+                }
+                if crashy && rng.chance(1, 8) {
+                    sim.crash();
+                    ops.push("crash".into());
+                }
+                if rng.chance(1, 25) {
+                    sim.truncate();
+                    ops.push("truncate".into());
+                }
+                continue;
+            }
+            match rng.below(100) {
+                0..=54 => {
+                    let p = random_payload(rng, &mut sim, c);
+                    ops.push(push_op(rng, &mut sim, &mut tid, p));
+                }
+                55..=69 => {
+                    sim.force();
+                    ops.push("force".into());
+                }
+                70..=72 => ops.push("image".into()),
+                73..=84 => {
+                    let k = if rng.chance(1, 40) { 0 } else { 1 + rng.below(6) };
+                    if k == 0 {
+                        base.push("read-ahead-0");
+                    }
+                    ops.push(format!("read {}", k));
+                }
+                85..=91 => {
+                    sim.reopen();
+                    ops.push("reopen".into());
+                }
+                92..=95 => {
+                    sim.truncate();
+                    ops.push("truncate".into());
+                }
+                _ => {
+                    if crashy {
+                        sim.crash();
+                        ops.push("crash".into());
+                    } else {
+                        sim.force();
+                        ops.push("force".into());
+                    }
+                }
+            }
+        }
+        // the log is always read back at the end: as is, after a force, and after a reopen
+        ops.push(format!("read {}", 1 + rng.below(6)));
+        sim.force();
+        ops.push("force".into());
+        ops.push(format!("read {}", 1 + rng.below(6)));
+        sim.reopen();
+        ops.push("reopen".into());
+        ops.push(format!("read {}", 1 + rng.below(6)));
+        ops.push("image".into());
+        Case { line: format!("seq | {}", ops.join(" ; ")), tags: tags_of(&sim, &base) }
+    }
+
+    fn rec_case(rng: &mut Rng, ulen: usize, rlen: usize) -> Case {
+        let o = |rng: &mut Rng| match rng.below(4) {
+            0 => "-".to_string(),
+            1 => rng.below(3).to_string(),
+            2 => u64::MAX.to_string(),
+            _ => rng.next_u64().to_string(),
+        };
+        let lsn = if rng.chance(1, 8) { u64::MAX } else { rng.next_u64() >> rng.below(64) };
+        let tid = rng.next_u64() >> rng.below(64);
+        let kind = *rng.pick(&KINDS);
+        let (p, q, w) = (o(rng), o(rng), o(rng));
+        let u = rng.bytes(ulen);
+        let r = rng.bytes(rlen);
+        Case {
+            line: format!(
+                "rec {} {} {} {} {} {} {} {}",
+                lsn,
+                tid,
+                kind,
+                p,
+                q,
+                w,
+                crate::util::hex_or_dash(&u),
+                crate::util::hex_or_dash(&r)
+            ),
+            tags: vec!["rec".into(), format!("rec-residue-{}", (ulen + rlen) % 8), "nt".into()],
+        }
+    }
+
+    pub fn gen_cases(rng: &mut Rng, tier: Tier) -> Vec<Case> {
+        // the constants only steer the generator towards block boundaries
+        let bs = super::generated_block_size().unwrap_or(40960);
+        let c = fw::constants(bs);
+        let mut cases = Vec::new();
+        let quick = tier == Tier::Quick;
+        exhaustive(&mut cases, &c, if quick { 4 } else { 5 });
+        for _ in 0..if quick { 600 } else { 6000 } {
+            cases.push(random_seq(rng, &c, if quick { 60 } else { 300 }));
+        }
+        // record images: every payload residue, empty payloads, a few long ones
+        for u in 0..9 {
+            for r in 0..9 {
+                cases.push(rec_case(rng, u, r));
+            }
+        }
+        for _ in 0..if quick { 200 } else { 2000 } {
+            let u = rng.below(70) as usize;
+            let r = rng.below(70) as usize;
+            cases.push(rec_case(rng, u, r));
+        }
+        for (u, r) in [(65535, 0), (0, 65535), (40816, 0), (20000, 20816), (65535, 65535)] {
+            cases.push(rec_case(rng, u, r));
+        }
+        cases
+    }
+}
+
+/// block size the log uses on the scratch file system
+fn generated_block_size() -> Option<usize> {
+    let dir = scratch_dir();
+    std::fs::create_dir_all(&dir).ok()?;
+    let _guard = DirGuard(dir.clone());
+    let w = fw::Wal::create(dir.join("wal.log")).ok()?;
+    Some(w.stats().block_size)
+}
+
+/// Content of `lean/AxVerif/Generated/Wal.lean`: the log's constants, evaluated from the code (a log is created
+/// on the scratch file system to learn the block size actually used there).
 pub fn generated() -> Option<(&'static str, String)> {
-    None
+    let dir = scratch_dir();
+    std::fs::create_dir_all(&dir).ok()?;
+    let _guard = DirGuard(dir.clone());
+    let w = fw::Wal::create(dir.join("wal.log")).ok()?;
+    let bs = w.stats().block_size;
+    let max_rec = w.max_record_size();
+    drop(w);
+    let c = fw::constants(bs);
+    assert_eq!(c.max_record_size, max_rec);
+    let padded: Vec<String> = c.padded_sizes.iter().map(|n| n.to_string()).collect();
+    Some((
+        "Wal.lean",
+        format!(
+            "/- REGENERATED on every run by `axh extract` from values evaluated out of /repo. Do not edit. -/\n\
+             import AxVerif.Model.Wal\n\
+             namespace AxVerif.Generated\n\n\
+             def walParams : AxVerif.Wal.Params :=\n  \
+             {{ blockSize := {}, blockHdr := {}, zeroHdr := {}, recHdr := {}, align := {},\n    \
+             maxRecord := {}, freshZeroAvail := {}, freshBlockAvail := {}, freshTotalBlocks := {} }}\n\n\
+             /-- `WAL_BLOCK_SIZE` before rounding up to the file-system block size -/\n\
+             def walBlockSizeConst : Nat := {}\n\n\
+             /-- `OwnedRecord::compute_padded_size(n)` for n = 0..15 -/\n\
+             def walPaddedSizes : List Nat := [{}]\n\n\
+             end AxVerif.Generated\n",
+            bs,
+            c.block_header_size,
+            c.zero_header_size,
+            c.record_header_size,
+            c.record_alignment,
+            c.max_record_size,
+            c.fresh_zero_available,
+            c.fresh_block_available,
+            c.fresh_total_blocks,
+            c.wal_block_size,
+            padded.join(", ")
+        ),
+    ))
 }
